@@ -65,7 +65,12 @@ impl<'b> LuaDocParser<'_, 'b> {
         {
             let line = tokens
                 .iter()
-                .map(|t| format!("{}:{}:{}", t.kind as u16, t.range.start_offset, t.range.length))
+                .map(|t| {
+                    format!(
+                        "{}:{}:{}",
+                        t.kind as u16, t.range.start_offset, t.range.length
+                    )
+                })
                 .collect::<Vec<_>>()
                 .join(",");
             parser.lua_parser.verif_doc_trace.push(format!("G{line}"));
